@@ -31,7 +31,7 @@ CHECKS = {
                       'part size 4..40 bytes, <=3 transfers, <=8 faults per run; faults only at operations the copier runs '
                       'under retry_transient_errors; schedule-dependent transfer combinations are pruned by the model; trusts '
                       'the scratch file system, CPython asyncio on the simulated loop and the reference model.',
-        'scenarios': [{'module': 'worlds.fs.copy', 'quick': 24000, 'thorough': 1200000,
+        'scenarios': [{'module': 'worlds.fs.copy', 'quick': 16000, 'thorough': 800000,
                        'wall_cap': {'quick': 240.0, 'thorough': 1150.0}}],
         'expected_probes': ['multi_part_file', 'multi_part_file_observed', 'size_eq_part_boundary', 'size_multiple_of_part',
                             'zero_byte_file', 'dest_exists_dir', 'dest_exists_file', 'dest_missing', 'dest_parent_missing',
